@@ -7,10 +7,11 @@ use molt::types::*;
 use std::collections::hash_map::DefaultHasher;
 use std::hash::{Hash, Hasher};
 
-const POOL: [&str; 33] = [
+const POOL: [&str; 41] = [
     "", "0", "1", "-1", "5", " 7 ", "0x1F", "+3", "--5", "9223372036854775807", "-9223372036854775808",
     "9223372036854775808", "1.5", "5.0", "1e3", ".5", "5.", "Inf", "-inf", "NaN", "true", "YES", "off", "no",
     "a b c", "a {b c} d", "k v k2 {v 2}", "{", "a\"b", "x(1)", "a 1 b 2 a 3", "k v k w", "0x10",
+    "0x-5", "0x+ff", "+0x-10", "-0x-5", "0x", "+-5", "-0x8000000000000000", "0X1f",
 ];
 const REQS: [&str; 8] = ["str", "int", "float", "bool", "list", "dict", "varname", "script"];
 
@@ -111,7 +112,7 @@ pub fn gen(tier: &str, seed: u64) -> Gen {
             level = next;
         }
     }
-    fams.push((format!("all conversion-request sequences of length<={} over 8 views on a value and its clone, 33 strings (incl. dictionaries with repeated keys)", maxlen), nreq, !thorough));
+    fams.push((format!("all conversion-request sequences of length<={} over 8 views on a value and its clone, {} strings (incl. dictionaries with repeated keys, signs inside hexadecimal literals)", maxlen, POOL.len()), nreq, !thorough));
     // values born from typed data whose string nobody has asked for yet: one typed view is requested
     // on a clone first, then the string must still be the string of the data
     let typed: Vec<Term> = vec![
